@@ -339,9 +339,21 @@ def find_paths(context, *args, **kwargs):
 
 @builtin.pre_execute_hook()
 def find_check_cache(context):
-    if context.regenerating is not Regenerating.lazy:
-        return
+    if context.regenerating is Regenerating.lazy:
+        _check_cache(context)
 
+    # The build script is about to run and replaces files in the build
+    # directory as it goes (e.g. pkg-config files). Until the new cache is
+    # saved, the old one describes a state that no longer exists; remove it so
+    # the next lazy check can't mistake an interrupted run for a finished one.
+    try:
+        os.remove(os.path.join(context.env.builddir.string(),
+                               FindCacheFile.cachefile))
+    except FileNotFoundError:
+        pass
+
+
+def _check_cache(context):
     try:
         regen_files, old_cache = FindCacheFile.load(
             context.env.builddir.string(), context
